@@ -134,6 +134,21 @@ fn c16(stages: &[(&'static str, Schedule)], out: &Value) -> Value {
             }
         }
     }
+    // end depots aligned to the (optimiser's) cycles: every vehicle ends in the depot where its cyclic successor starts
+    for vt in types(fin) {
+        for c in fin.next_day_transition_of(vt).cycles_iter() {
+            let vs: Vec<_> = c.iter().collect();
+            for (i, v) in vs.iter().enumerate() {
+                let nxt = vs[(i + 1) % vs.len()];
+                if let (Ok(t), Ok(n)) = (fin.tour_of(*v), fin.tour_of(nxt)) {
+                    let (e, s0) = (nw.get_depot_idx(t.last_node()), nw.get_depot_idx(n.first_node()));
+                    if e != s0 {
+                        viol.push(json!(["end-depots-not-aligned", format!("{} ends in depot {} but its successor {} in the reported cycle starts in depot {}", v, nw.get_depot(e).id(), nxt, nw.get_depot(s0).id())]));
+                    }
+                }
+            }
+        }
+    }
     // the answer is the serialisation of the final snapshot
     let expect = solution::json_serialisation::schedule_to_json(fin);
     if out.get("schedule") != Some(&expect) {
